@@ -405,7 +405,7 @@ def classify(ctx, rejected, label):
     triples = [[a, b, c] for i, a in enumerate(ALL_FLAGS) for j, b in enumerate(ALL_FLAGS[i + 1:], i + 1)
                for c in ALL_FLAGS[j + 1:]]
     # few rejections: singles and pairs in one TLC run (a JVM start costs more than the extra cases)
-    stages = [singles + pairs, triples] if len(todo) <= 40 else [singles, pairs, triples]
+    stages = [singles + pairs, triples] if len(todo) <= 40 else [singles, pairs + triples]
     for stage, combos in enumerate(stages):
         if not todo:
             break
